@@ -606,9 +606,42 @@ def _desugar_body(stmts):
             orelse, _ = _desugar_body([b])
             out.append(ast.copy_location(ast.If(test=e.test, body=body, orelse=orelse), st))
             changed = True
+        elif isinstance(st, ast.Assign) and len(st.targets) == 1 and isinstance(st.targets[0], (ast.Tuple, ast.List)) and isinstance(st.value, (ast.Tuple, ast.List)) \
+                and len(st.targets[0].elts) == len(st.value.elts) and _independent(st.targets[0].elts, st.value.elts):
+            # a, b = x, y  with no element reading what another one writes: the same as a = x; b = y
+            for t_, v_ in zip(st.targets[0].elts, st.value.elts):
+                out.append(ast.copy_location(ast.Assign(targets=[t_], value=v_, lineno=st.lineno), st))
+            changed = True
         else:
             out.append(st)
     return out, changed
+
+
+def _independent(targets, values):
+    if any(isinstance(t, ast.Starred) for t in targets) or any(isinstance(v, ast.Starred) for v in values):
+        return False
+    written_names = set()
+    written_attrs = set()
+    for t in targets:
+        if isinstance(t, ast.Name):
+            written_names.add(t.id)
+        elif isinstance(t, ast.Attribute) and isinstance(t.value, ast.Name):
+            written_attrs.add(t.attr)
+        else:
+            return False
+    for v in values:
+        for x in ast.walk(v):
+            if isinstance(x, ast.Name) and x.id in written_names:
+                return False
+            if isinstance(x, ast.Attribute) and x.attr in written_attrs:
+                return False
+            if isinstance(x, ast.Call):
+                return False  # a call could read or write anything
+    # the targets' own receivers must not be rebound by the statement
+    for t in targets:
+        if isinstance(t, ast.Attribute) and t.value.id in written_names:
+            return False
+    return True
 
 
 def relink(node):
@@ -626,7 +659,7 @@ def desugar(model):
     for q, fn in list(model.funcs.items()):
         if fn.path.endswith("posc.py"):
             continue
-        if not any(isinstance(x, ast.IfExp) for x in ast.walk(fn.node)):
+        if not any(isinstance(x, ast.IfExp) or (isinstance(x, ast.Assign) and isinstance(x.targets[0], (ast.Tuple, ast.List)) and isinstance(x.value, (ast.Tuple, ast.List))) for x in ast.walk(fn.node)):
             continue
         new, ch = _desugar_body(fn.node.body)
         if ch:
